@@ -311,6 +311,17 @@ func engcKindWeights(profile string) []string {
 	case "pay":
 		out = rep(out, "pay", 8)
 		out = rep(out, "close", 2)
+	case "money": // value movers: payments, closes, fees, inner payments
+		out = rep(out, "pay", 6)
+		out = rep(out, "close", 3)
+		out = rep(out, "keyreg-online", 2)
+		out = rep(out, "keyreg-offline", 1)
+		out = rep(out, "rekey", 1)
+		out = rep(out, "acfg-create", 1)
+		out = rep(out, "axfer-optin", 1)
+		out = rep(out, "app-create", 2)
+		out = rep(out, "app-fund", 3)
+		out = rep(out, "app-call", 10)
 	case "status":
 		out = rep(out, "pay", 6)
 		out = rep(out, "close", 3)
@@ -354,8 +365,8 @@ func engcKindWeights(profile string) []string {
 func (g *engcGen) txn() (*txntest.Txn, string) {
 	kinds := engcKindWeights(g.w.Opts.Profile)
 	kind := kinds[rapid.IntRange(0, len(kinds)-1).Draw(g.t, "kind")]
-	if g.w.Opts.Profile == "" {
-		// steering (general mix only): get an application early, and keep application accounts funded so that box
+	if g.w.Opts.Profile == "" || g.w.Opts.Profile == "money" {
+		// steering (general and money mixes): get an application early, and keep application accounts funded so that box
 		// operations and inner payments are applicable
 		if len(g.appIDs) == 0 && rapid.IntRange(0, 3).Draw(g.t, "steerCreate") == 0 {
 			kind = "app-create"
@@ -703,6 +714,9 @@ func (g *engcGen) build(kind string) *txntest.Txn {
 			cur, boxExists := g.s.Kv[boxKey]
 			ops := []string{"gput", "gput", "gputi", "gdel", "lput", "lput", "ldel", "bcreate", "bcreate", "bput", "bput", "bresize", "breplace", "bdel", "bdel", "ipay", "ipay", "ipay", "ipay", "log", "reject", "bogus"}
 			op := ops[rapid.IntRange(0, len(ops)-1).Draw(t, "op")]
+			if g.w.Opts.Profile == "money" && rapid.IntRange(0, 4).Draw(t, "moneyIpay") < 3 {
+				op = "ipay"
+			}
 			// steer puts towards what the schema allows (a put beyond the schema is rejected; keep 1 in 5 of those)
 			if params, ok := g.s.Acct(creator).AppParams[app]; ok && rapid.IntRange(0, 4).Draw(t, "schemaBlind") != 0 {
 				switch op {
